@@ -28,6 +28,7 @@ var repoSets = map[string]genSet{
 	"goldmaster": {Name: "goldmaster", Files: []string{tls + "goldmaster.tl", tls + "goldmaster2.tl", tls + "goldmaster3.tl"}, Args: []string{"--tl2WhiteList=*", "--generateByteVersions=ch_proxy.,ab.,memcache.", "--generateRandomCode"}},
 	"schema":     {Name: "schema", Files: []string{tls + "schema.tl"}, Args: []string{"--tl2WhiteList=*", "--generateByteVersions=ch_proxy.,ab.,memcache.", "--generateRandomCode", "--split-internal"}}, // not =*: known finding F41
 	"sink":       {Name: "sink", Files: []string{"/verif/schemas/sink.tl"}, Args: []string{"--tl2WhiteList=*", "--generateByteVersions=*", "--generateRandomCode"}},
+	"f46":        {Name: "f46", Files: []string{"/verif/schemas/f46.tl"}, Args: []string{"--tl2WhiteList=*", "--generateByteVersions=*", "--generateRandomCode"}}, // only for the sentinel of known finding F46
 	"casestl2":   {Name: "casestl2", Files: []string{tls + "cases.tl2"}, Args: []string{"--tl2WhiteList=*", "--generateByteVersions=cases_bytes.", "--generateRandomCode", "--checkLengthSanity=false"}},
 	"casesnotl2": {Name: "casesnotl2", Files: []string{tls + "cases.tl"}, Args: []string{"--generateByteVersions=cases_bytes.", "--generateRandomCode"}},
 }
